@@ -716,6 +716,49 @@ def normalise_control_flow(fn: ast.FunctionDef, ref_tests: List[str], ref_forms:
     ast.fix_missing_locations(fn)
 
 
+def hoist_common_tail(fn: ast.FunctionDef, ref_fn: dict) -> None:
+    """`if c: A; T else: B; T`  ->  `if c: A else: B` + T, for a statement T that the reference function has fewer times than
+    the current one (tail duplication undone).  Falling off the end of either branch reaches T in both forms."""
+    ref_src = ref_fn.get("src", "")
+    ref_lines = [l.strip() for l in ref_src.splitlines()]
+    for _round in range(8):
+        changed = False
+        cur_lines = [l.strip() for l in ast.unparse(fn).splitlines()]
+        for owner, fld, blk in blocks_of(fn):
+            for i, st in enumerate(blk):
+                if not (isinstance(st, ast.If) and st.orelse and st.body):
+                    continue
+                a, b = st.body[-1], st.orelse[-1]
+                # `...; return E` / `...; return x`  ->  `...; x = E` / `...` + `return x`, when the reference assigns x = E
+                if isinstance(a, ast.Return) and isinstance(b, ast.Return) and a.value is not None and b.value is not None and _u(a) != _u(b):
+                    for this, other, branch in ((a, b, st.body), (b, a, st.orelse)):
+                        if isinstance(other.value, ast.Name) and not isinstance(this.value, ast.Name) and f"{other.value.id} = {_u(this.value)}" in ref_lines \
+                                and f"return {other.value.id}" in ref_lines:
+                            branch[-1] = ast.copy_location(ast.Assign(targets=[ast.Name(id=other.value.id, ctx=ast.Store())], value=this.value), this)
+                            branch.append(ast.copy_location(ast.Return(value=ast.Name(id=other.value.id, ctx=ast.Load())), this))
+                            a, b = st.body[-1], st.orelse[-1]
+                            break
+                if isinstance(a, (ast.If, ast.For, ast.While, ast.Try, ast.With, ast.FunctionDef, ast.ClassDef, ast.Pass)) or _u(a) != _u(b):
+                    continue
+                line = _u(a).splitlines()[0].strip()
+                if cur_lines.count(line) <= ref_lines.count(line):
+                    continue
+                if always_exits([a]) and blk[i + 1:]:
+                    continue                    # both branches leave: what follows is dead in either form, leave it
+                st.body.pop()
+                st.orelse.pop()
+                if not st.body:
+                    st.body = [ast.copy_location(ast.Pass(), st)]
+                blk.insert(i + 1, a)
+                changed = True
+                break
+            if changed:
+                break
+        if not changed:
+            break
+    ast.fix_missing_locations(fn)
+
+
 # ----------------------------------------------------------------------------------------------- renamed private members
 def stored_attrs(c: ast.ClassDef) -> List[str]:
     out = set()
@@ -858,6 +901,27 @@ def normalise_expression_forms(fn: ast.FunctionDef, ref_fn: dict) -> None:
                         blk[i] = ast.copy_location(ast.Return(value=ast.IfExp(test=test, body=a, orelse=b)), st)
                         if drop:
                             del blk[i + 1]
+                        changed = True
+                        break
+                # conditional-expression assignment where the reference has an if statement, and the reverse
+                if isinstance(st, ast.Assign) and len(st.targets) == 1 and isinstance(st.value, ast.IfExp):
+                    k, nk = _key(st.value.test), _key(negate(st.value.test))
+                    if k not in expr_keys and nk not in expr_keys and (k in stmt_keys or nk in stmt_keys):
+                        import copy as _copy
+                        ie = st.value
+                        new = ast.If(test=ie.test, body=[ast.Assign(targets=[st.targets[0]], value=ie.body)],
+                                     orelse=[ast.Assign(targets=[_copy.deepcopy(st.targets[0])], value=ie.orelse)])
+                        blk[i] = ast.copy_location(new, st)
+                        changed = True
+                        break
+                if isinstance(st, ast.If) and len(st.body) == 1 and len(st.orelse) == 1 and all(isinstance(x, ast.Assign) and len(x.targets) == 1 for x in (st.body[0], st.orelse[0])) \
+                        and _u(st.body[0].targets[0]) == _u(st.orelse[0].targets[0]) and isinstance(st.body[0].targets[0], (ast.Name, ast.Attribute)):
+                    k, nk = _key(st.test), _key(negate(st.test))
+                    if k not in stmt_keys and nk not in stmt_keys and (k in expr_keys or nk in expr_keys):
+                        test, a, b = st.test, st.body[0].value, st.orelse[0].value
+                        if k not in expr_keys:
+                            test, a, b = negate(test), b, a
+                        blk[i] = ast.copy_location(ast.Assign(targets=[st.body[0].targets[0]], value=ast.IfExp(test=test, body=a, orelse=b)), st)
                         changed = True
                         break
                 # accumulate-by-append loop over a fresh list -> comprehension
